@@ -17,10 +17,17 @@ META = {
         "transformations on a symbolically affine image X = A xi + c of a 2-cell quad mesh / 1-cell hex mesh (det A > 0): rotate (symbolic angle and centre), translate, mirror (axis and general normal), "
         "flip o flip, triangulate (quad; hexahedron modes 0 and 3), expand (symbolic thickness), revolve (orientation), add_midpoints_edges / faces / volumes and convert (inserted points are centroids; measure "
         "preserved), concatenate, stack, disconnect, merge_duplicate_points: total measure preserved and every new cell positively oriented",
-        "merge_duplicate_points itself runs on concrete data (np.unique(axis=0) does not accept symbolic arrays): corners unmoved within the rounding step, no two output points equal, connectivity consistent",
+        "Triangle(a, b, c, n = 2, 3 (4 thorough)) with SYMBOLIC corners (a non-degenerate, positively oriented family): cells tile the triangle (area = det / 2, 1e-9), every dV > 0, all points inside "
+        "(barycentric coordinates > -1e-9), each corner is a mesh point, no unused / duplicate points, expected counts. The generator's final sweep runs CONCOLICALLY (merge pattern from the real function at one "
+        "sample; 'every merged pair coincides on the whole domain' is an obligation); scipy's griddata inside fill_between is a contract stub (1-D linear interpolation)",
+        "Circle(n = 2, 3 (4 thorough); full, half and three-quarter section lists): generated concretely (the generator multiplies float tables in place), radius and centre symbolic afterwards: dV > 0, boundary "
+        "points on the circle, cells tile the inscribed polygon (shoelace), all points inside the disc, no unused / duplicate points, cell count",
+        "programs: sequences of 2-4 transformations with independent symbolic arguments on the affine quad mesh: measure and orientation after the program (an odd number of flips must invert the orientation)",
+        "merge_duplicate_points itself runs on concrete data (np.unique(axis=0) does not accept symbolic arrays) for decimals in {None, 0, 6, 10, -1} with interface points off by 1e-3 rounding steps: corners unmoved "
+        "within the rounding step, no two output points equal or closer than half a step, connectivity consistent, MeshContainer(merge=True) shares the merged points",
     ],
-    "outside": ["Circle, Triangle, fill_between, runouts, interpolate_line, arbitrary-order Lagrange generators", "unbounded transformation programs (single transformations and pairs only)", "volume of revolved meshes (Pappus)"],
-    "assumptions": ["det A > 0.3 for the affine base meshes"],
+    "outside": ["runouts, interpolate_line, arbitrary-order Lagrange generators, Circle with symbolic n / exponent / value", "transformation programs longer than 3-4 steps (quick: 6 programs; thorough: all ordered pairs of {rotate, translate, mirror(axis), mirror(normal)} followed by none / triangulate / expand, flips in between)", "volume of revolved meshes (Pappus)"],
+    "assumptions": ["det A > 0.3 for the affine base meshes", "3-D convert / add_midpoints_volumes and Circle cases: Region's negative-volume branch (warning only, no data flow) is cut, positivity of every dV is proved as an obligation instead", "griddata contract (linear interpolation between two rows)"],
 }
 
 REG = {
@@ -38,7 +45,11 @@ REG = {
 }
 
 
-def dV_of(ctx, mesh):
+def dV_of(ctx, mesh, cut=False):
+    if cut:
+        # Region's negative-volume test only emits a warning (no data flow): the branch is cut (not assumed); positivity is an obligation
+        with ctx.cut_forks(False):
+            return np.asarray(REG[mesh.cell_type](mesh).dV)
     if mesh.cell_type == "line":
         P = np.asarray(mesh.points)
         return np.array([P[c[1], 0] - P[c[0], 0] for c in mesh.cells], dtype=object if ctx.sym else float)
@@ -153,8 +164,23 @@ def case_transform(ctx, op, dim=2):
         factor = 2
     else:
         raise KeyError(op)
-    d1 = dV_of(ctx, new)
-    positive(ctx, "new_cells_positively_oriented", d1)
+    if dim == 3 and op in ("midpoints_volumes", "convert2"):
+        # 27 quadrature points of a tri-quadratic cell: exploring every sign fork of Region's negative-volume test does not finish and
+        # the direct positivity query times out.  The branch (warning only, no data flow) is cut, and positivity is proved in two
+        # steps: dV_q = w_q det(A) / 8 within 1e-12 (the cell is the affine image of the unit cube), and w_q det(A) / 8 > 1e-3
+        with ctx.cut_forks(False):
+            reg = REG[new.cell_type](new)
+        d1 = np.asarray(reg.dV)
+        w = np.asarray(reg.quadrature.weights, dtype=float)
+        detA = vol0
+        from fractions import Fraction as Fr
+
+        exp = np.array([[detA * (Fr(float(wq)) if ctx.sym else float(wq)) / 8] for wq in w], dtype=object if ctx.sym else float)
+        ctx.equal("dV_is_weight_times_affine_determinant", d1, exp, tol=1e-12)
+        ctx.holds("new_cells_positively_oriented", [e > 1e-3 for e in exp.reshape(-1)] if ctx.sym else [bool(e > 1e-3) for e in exp.reshape(-1)])
+    else:
+        d1 = dV_of(ctx, new)
+        positive(ctx, "new_cells_positively_oriented", d1)
     if factor is not None:
         ctx.equal("total_measure_preserved", np.asarray(d1).sum(), np.asarray(d0).sum() * factor, tol=1e-9, box={"atom:root": (0.4, 3), "atom:sin": (-1, 1), "atom:cos": (-1, 1)})
     if op.startswith("midpoints") or op == "convert2":
@@ -193,6 +219,52 @@ def case_transform(ctx, op, dim=2):
                 got.append(P[new.cells[c][-1]])
                 cent.append(sum(P[corners[c, i]] for i in range(8)) / 8)
             ctx.equal("volume_midpoints_are_centroids", np.array(got, dtype=object if ctx.sym else float), np.array(cent, dtype=object if ctx.sym else float))
+
+
+def _apply(ctx, mesh, op, tag, dim=2):
+    """one transformation with fresh symbolic arguments (names suffixed by tag); returns (new mesh, measure factor)"""
+    if op == "rotate":
+        return mesh.rotate(ctx.var("angle_deg" + tag, -180, 180), axis=2 if dim == 2 else 1, center=ctx.array("center" + tag, (dim,), -1, 1)), 1
+    if op == "translate":
+        return mesh.translate(ctx.var("move" + tag, -3, 3), axis=dim - 1), 1
+    if op == "mirror_axis":
+        return mesh.mirror(axis=0, centerpoint=list(ctx.array("cp" + tag, (3,), -1, 1))), 1
+    if op == "mirror_normal":
+        nrm = [ctx.var("n0" + tag, 0.5, 1), ctx.var("n1" + tag, -1, 1), ctx.var("n2" + tag, -1, 1)]
+        return mesh.mirror(normal=nrm, centerpoint=list(ctx.array("cp" + tag, (3,), -1, 1))), 1
+    if op == "flip":
+        return mesh.flip(), -1
+    if op == "triangulate":
+        return mesh.triangulate(), 1
+    if op == "midpoints_edges":
+        return mesh.add_midpoints_edges(), 1
+    if op == "expand":
+        z = ctx.var("z" + tag, 0.2, 3)
+        return mesh.expand(n=2, z=z), z
+    if op == "stack_self":
+        return fem.mesh.stack([mesh, mesh]), 2
+    if op == "none":
+        return mesh, 1
+    raise KeyError(op)
+
+
+def case_program(ctx, ops):
+    """a finite sequence of transformations on the symbolically affine 2-cell quad mesh: measure and orientation after the program"""
+    mesh, vol0 = affine_mesh(ctx, 2)
+    d0 = dV_of(ctx, mesh)
+    factor, new, sign = 1, mesh, 1
+    for k, op in enumerate(ops):
+        new, f = _apply(ctx, new, op, "_%d" % k)
+        if op == "flip":
+            sign = -sign
+        else:
+            factor = factor * f
+    d1 = dV_of(ctx, new)
+    if sign > 0:
+        positive(ctx, "cells_positively_oriented_after_program", d1)
+    else:
+        positive(ctx, "odd_number_of_flips_inverts_orientation", -np.asarray(d1))
+    ctx.equal("total_measure_after_program", np.asarray(d1).sum() * sign, np.asarray(d0).sum() * factor, tol=1e-9, box={"atom:root": (0.4, 3), "atom:sin": (-1, 1), "atom:cos": (-1, 1)})
 
 
 def case_tetra_midpoints(ctx):
@@ -348,7 +420,7 @@ def case_circle(ctx, n, sections):
     ex = (lambda v: Fraction(float(v))) if ctx.sym else float
     P = np.array([[cpt[i] + r * ex(P0[p, i]) for i in range(2)] for p in range(m0.npoints)], dtype=object if ctx.sym else float)
     mesh = fem.Mesh(P, m0.cells, m0.cell_type)
-    dV = dV_of(ctx, mesh)
+    dV = dV_of(ctx, mesh, cut=True)  # many cells: Region's negative-volume branch (warning only) is cut, positivity is the obligation below
     positive(ctx, "cells_positively_oriented", dV)
     full = len(sections) == 4
     if full:
@@ -412,8 +484,15 @@ def cases(tier):
         out.append(("transform", case_transform, {"op": op, "dim": 2, "max_paths": 16}))
     ops3 = ["translate", "triangulate", "triangulate0", "mirror_axis"] + (["rotate", "midpoints_volumes", "convert2", "flipflip"] if tier == "thorough" else [])
     for op in ops3:
-        out.append(("transform", case_transform, {"op": op, "dim": 3, "max_paths": 64 if op in ("midpoints_volumes", "convert2") else 16}))
+        out.append(("transform", case_transform, {"op": op, "dim": 3, "max_paths": 16}))
     out.append(("transform", case_transform, {"op": "revolve", "dim": 2, "max_paths": 16}))
+    rigid = ["rotate", "translate", "mirror_axis", "mirror_normal"]
+    if tier == "quick":
+        progs = [["rotate", "mirror_axis", "triangulate"], ["mirror_normal", "rotate", "expand"], ["mirror_axis", "mirror_normal", "triangulate"], ["flip", "mirror_axis", "flip"], ["translate", "rotate", "stack_self"], ["mirror_axis", "flip"]]
+    else:
+        progs = [[a, b, c] for a in rigid for b in rigid for c in ("none", "triangulate", "expand")] + [["flip", a, "flip"] for a in rigid] + [[a, "flip"] for a in rigid] + [["rotate", "mirror_normal", "rotate", "triangulate"]]
+    for pr in progs:
+        out.append(("program", case_program, {"ops": pr, "max_paths": 16}))
     out.append(("tetra_midpoints", case_tetra_midpoints, {}))
     for dec in (None, 0, 6, 10, -1):
         out.append(("merge", case_merge, {"decimals": dec}))
